@@ -1500,6 +1500,38 @@ def c07_index_insert(env, ob):
     return trace_obligation(env, ob, ctx, res, bad, "INSERT keeps a found index entry although it may belong to a rolled-back transaction", cuts_ok=True)
 
 
+@obligation(id="C06.join_associativity_uses_both_conditions", funcs="JoinAssociativityRule::apply",
+            bounds="every path of the rule's apply(); memo lookups and the extract_* helpers uninterpreted (the helpers' "
+                   "conjunct accounting is Kani's C06.assoc_conjuncts obligations)",
+            native="c06_three_way_join_condition")
+def c06_join_assoc(env, ob):
+    """(A JOIN B ON inner) JOIN C ON outer  ->  A JOIN (B JOIN C): both new conditions must be extracted from the OUTER
+    condition (first argument, taken from the matched expression) and the INNER condition (second argument, taken from the
+    left child's first expression), with the same A-width; otherwise conjuncts are silently dropped or duplicated."""
+    ctx, f, args, res = explore(env, "sql/planner/rules.rs", "apply", sig=r"_1: &JoinAssociativityRule", loop_bound=1)
+    expr_p = f.params[1][0]
+
+    def bad(path, rv):
+        if path.panics or rv is None:
+            return None
+        bc, ac = _evs(path, r"^extract_bc_condition$|::extract_bc_condition$"), _evs(path, r"^extract_a_condition$|::extract_a_condition$")
+        produced = _evs(path, r"LogicalExpr::new$")
+        if not produced:
+            return None
+        if not bc or not ac:
+            return ("join_rewritten_without_redistributing_the_conditions", ret_is_ok(rv))
+        for e, what in ((bc[0], "bc"), (ac[0], "a")):
+            a0, a1 = e["argdesc"][0], e["argdesc"][1]
+            from_expr0 = a0.lstrip("&").startswith(expr_p)
+            from_expr1 = a1.lstrip("&").startswith(expr_p)
+            if not from_expr0 or from_expr1 or a0 == a1:
+                return (f"{what}_condition_not_extracted_from_outer_and_inner_condition", ret_is_ok(rv))
+        if bc[0]["argdesc"][2] != ac[0]["argdesc"][2]:
+            return ("a_width_differs_between_the_two_extractions", ret_is_ok(rv))
+        return None
+    return trace_obligation(env, ob, ctx, res, bad, "join associativity redistributes the wrong conditions", cuts_ok=True)
+
+
 # ---------------------------------------------------------------------------------------------------------------------
 # C07: constraint decisions (NOT NULL / UNIQUE) and their place in the DML paths
 # ---------------------------------------------------------------------------------------------------------------------
